@@ -1,6 +1,6 @@
 (* PrefilterProofs.v — soundness of the rx prefilter model (Prefilter.v) w.r.t. the regex
    semantics of Regex.v, and the lemmas behind the theorems of property C11. *)
-From Verif Require Import Base Utf8 Regex RegexProofs Prefilter.
+From Verif Require Import Base Utf8 Regex RegexUtf8Proofs RegexProofs Prefilter.
 From Coq Require Import Arith ZifyN ZifyBool ZifyNat.
 Ltac Zify.zify_post_hook ::= idtac.
 Open Scope N_scope.
@@ -215,6 +215,12 @@ Proof.
   intros [<-|Hx]; auto.
 Qed.
 
+Lemma forallb_repeat {A} (f : A -> bool) a n : f a = true -> forallb f (repeat a n) = true.
+Proof. intro H. induction n as [|n IH]; cbn [repeat forallb]; [reflexivity|]. rewrite H, IH. reflexivity. Qed.
+
+Lemma list_sum_map_repeat {A} (f : A -> nat) a n : list_sum (map f (repeat a n)) = (n * f a)%nat.
+Proof. induction n as [|n IH]; [reflexivity|]. cbn [repeat map]. unfold list_sum in *. cbn [fold_right]. rewrite IH. lia. Qed.
+
 Theorem min_len_sound w r i j : wf_re r = true -> M w r i j -> (i + min_len r <= j)%nat.
 Proof.
   intros Hwf H. revert Hwf.
@@ -233,6 +239,10 @@ Proof.
   - intros f l a i j Hin Ha IHa Hwf. rewrite forallb_forall in Hwf. specialize (IHa (Hwf _ Hin)).
     assert (Hm : (list_min (map min_len l) <= min_len a)%nat) by (apply list_min_le; apply in_map; exact Hin).
     lia.
+  - intros f mn mx a n i j Hml IH Hmn Hmx Hwf.
+    specialize (IH (forallb_repeat _ _ _ Hwf)). rewrite list_sum_map_repeat in IH.
+    destruct (Nat.eqb mn 0); [apply ML_bounds in Hml; lia|].
+    pose proof (Nat.mul_le_mono_r mn n (min_len a) Hmn). lia.
   - intros i _. cbn. lia.
   - intros a l i k j Ha IHa Hl IHl Hwf. cbn [forallb] in Hwf. apply andb_true_iff in Hwf. destruct Hwf as [H1 H2].
     specialize (IHa H1). specialize (IHl H2). cbn [map list_sum fold_right]. unfold list_sum in IHl. lia.
@@ -250,6 +260,14 @@ Lemma M_cap_inv w f a i j : M w (Cap f a) i j -> M w a i j.
 Proof. intro H. inversion H; subst; auto. Qed.
 Lemma M_plus_inv w f a i j : M w (Plus f a) i j -> exists k, M w a i k /\ M w (Star f a) k j.
 Proof. intro H. inversion H; subst; eauto. Qed.
+Lemma M_rep_inv w f mn mx a i j : M w (Rep f mn mx a) i j ->
+  exists n, ML w (repeat a n) i j /\ (mn <= n)%nat /\ match mx with Some m => (n <= m)%nat | None => True end.
+Proof. intro H. inversion H; subst; eauto. Qed.
+Lemma M_rep_iff w f mn mx a i j : M w (Rep f mn mx a) i j <->
+  exists n, ML w (repeat a n) i j /\ (mn <= n)%nat /\ match mx with Some m => (n <= m)%nat | None => True end.
+Proof.
+  split; [apply M_rep_inv|]. intros [n [H1 [H2 H3]]]. eapply M_rep; eauto.
+Qed.
 Lemma M_cat_inv w f l i j : M w (Cat f l) i j -> ML w l i j.
 Proof. intro H. inversion H; subst; auto. Qed.
 Lemma M_alt_inv w f l i j : M w (Alt f l) i j -> exists a, In a l /\ M w a i j.
@@ -271,6 +289,12 @@ Proof.
   cbn [has_flag node_fold] in Hm. apply orb_false_iff in Hm. tauto.
 Qed.
 Lemma mode_ok_plus ci w f a : mode_ok ci w (Plus f a) -> mode_ok ci w a.
+Proof.
+  intros [Hwf Hm]. split; [exact Hwf|]. destruct ci; [exact Hm|].
+  cbn [has_flag node_fold] in Hm. apply orb_false_iff in Hm. tauto.
+Qed.
+
+Lemma mode_ok_rep ci w f mn mx a : mode_ok ci w (Rep f mn mx a) -> mode_ok ci w a.
 Proof.
   intros [Hwf Hm]. split; [exact Hwf|]. destruct ci; [exact Hm|].
   cbn [has_flag node_fold] in Hm. apply orb_false_iff in Hm. tauto.
@@ -559,6 +583,12 @@ Proof.
     { eapply alt_branches_hold; [lia|exact Eb|apply in_map; exact Ha|].
       rewrite Forall_forall in H. apply H; [exact Ha|eapply mode_ok_alt; eauto|exact HMa]. }
     destruct b; [exact I|exact Hx].
+  - (* Rep *)
+    destruct (1 <=? mn)%nat eqn:E1; [|exact I]. apply Nat.leb_le in E1.
+    apply M_rep_inv in HM. destruct HM as [n [Hml [Hmn _]]].
+    destruct n as [|n]; [lia|]. cbn [repeat] in Hml. apply ML_cons_inv in Hml. destruct Hml as [k [Ha Hl]].
+    apply ML_bounds in Hl.
+    eapply lits_hold_mono; [| |apply (IHr i k); [eapply mode_ok_rep; eauto|exact Ha]]; lia.
 Qed.
 
 (* ====================================================================================== *)
@@ -585,7 +615,7 @@ Lemma lit_after_begin_sound ci w r i j :
   i = 0%nat /\ seg_at ci w 0 (lit_after_begin r ci).
 Proof.
   intros Hm HM Hne. apply strip_caps_M in HM. apply mode_ok_strip in Hm.
-  unfold lit_after_begin in *. destruct (strip_caps r) as [| | | | | | |f l|]; try congruence.
+  unfold lit_after_begin in *. destruct (strip_caps r) as [| | | | | | |f l| |]; try congruence.
   destruct l as [|b [|x rest]]; try congruence.
   destruct (is_op0 b OBeginText) eqn:Eb; [|congruence].
   apply is_op0_begin in Eb. destruct Eb as [fb ->].
@@ -617,7 +647,7 @@ Lemma lit_before_end_sound ci w r i j :
   /\ seg_at ci w (length w - length (lit_before_end r ci)) (lit_before_end r ci).
 Proof.
   intros Hm HM Hi Hne. apply strip_caps_M in HM. apply mode_ok_strip in Hm.
-  unfold lit_before_end in *. destruct (strip_caps r) as [| | | | | | |f l|]; try congruence.
+  unfold lit_before_end in *. destruct (strip_caps r) as [| | | | | | |f l| |]; try congruence.
   destruct (length l <? 2)%nat eqn:El; [congruence|]. apply Nat.ltb_ge in El.
   destruct (nth_error l (length l - 1)) as [e|] eqn:Ee; [|congruence].
   destruct (nth_error l (length l - 2)) as [x|] eqn:Ex; [|congruence].
@@ -1115,6 +1145,7 @@ Proof.
     + destruct (trie_reconstruct l ci); [discriminate|].
       destruct (cat_best (map (fun a1 : re => extract_literals a1 ci) l)); discriminate.
   - destruct (alt_branches (map (fun a1 : re => extract_literals a1 ci) l)) as [[|x b]|]; discriminate.
+  - destruct (1 <=? mn)%nat; [eauto|discriminate].
 Qed.
 
 (* ====================================================================================== *)
@@ -1215,14 +1246,14 @@ Lemma exact_rel_shape r0 r rs ci : exact_rel r0 r = true -> extract_exact r0 = S
   exists f b e, r = Cat f [b; Lit ci rs; e] /\ is_begin b = true /\ is_end e = true.
 Proof.
   unfold exact_rel. intros Hrel He. rewrite He in Hrel. split.
-  - unfold extract_exact in He. destruct r0 as [| | | | | | |f0 l0|]; try discriminate.
+  - unfold extract_exact in He. destruct r0 as [| | | | | | |f0 l0| |]; try discriminate.
     destruct l0 as [|b0 [|m0 [|e0 [|x l']]]]; try discriminate;
-      destruct m0 as [f1 rs1| | | | | | | |]; try discriminate.
+      destruct m0 as [f1 rs1| | | | | | | | |]; try discriminate.
     destruct (is_op0 b0 OBeginText && is_op0 e0 OEndText && negb (has_rune_error rs1)) eqn:E; [|discriminate].
     inversion He; subst. apply andb_true_iff in E. destruct E as [_ E]. apply negb_true_iff in E. exact E.
-  - destruct r as [| | | | | | |f l|]; try discriminate.
+  - destruct r as [| | | | | | |f l| |]; try discriminate.
     destruct l as [|b [|m [|e [|x l']]]]; try discriminate;
-      destruct m as [f1 rs1| | | | | | | |]; try discriminate.
+      destruct m as [f1 rs1| | | | | | | | |]; try discriminate.
     apply andb_true_iff in Hrel. destruct Hrel as [Hrel H4]. apply andb_true_iff in Hrel. destruct Hrel as [Hrel H3].
     apply andb_true_iff in Hrel. destruct Hrel as [H1 H2]. apply lrs_eqb_eq in H4. apply eqb_prop in H3. subst.
     exists f, b, e. auto.
